@@ -8,7 +8,7 @@ from typing import Any, Optional
 from ..absint import AObj
 from ..antlrstubs import Console, install_antlr
 from ..codec import PATH, run_reader
-from ..core import AnalysisError, Ctx, loc
+from ..core import AnalysisError, Ctx, is_library_error, loc
 from ..iostubs import VFS
 from ..model import ModelBuilder
 from ..pm import ProgramModel
@@ -205,7 +205,7 @@ def featureide(pm: ProgramModel, ctx: Ctx, mb: ModelBuilder) -> None:
     doc = ('<featureModel><struct><and name="R"><feature name="A"/></and></struct><constraints><rule>'
            "<atmost1><var>A</var></atmost1></rule></constraints></featureModel>")
     r = read(pm, "FeatureIDEReader", doc.encode("utf8"))
-    ctx.check(r["raise"] is not None and r["raise"][0].startswith(("FlamaException", "ParsingException")),
+    ctx.check(r["raise"] is not None and is_library_error(pm, r["raise"][0]),
               "C09-UNSUPPORTED", "fide-unknown-rule", where, "an unknown rule tag is reported as a library error",
               bad=f"unknown FeatureIDE rule tag: {r['raise'][0] if r['raise'] else 'a model is returned'} "
                   f"(expected a FlamaException)")
@@ -216,7 +216,7 @@ def featureide(pm: ProgramModel, ctx: Ctx, mb: ModelBuilder) -> None:
     rootx = mb.feature("R")
     mb.relation(rootx, [mb.feature("A")], 0, 1)
     mb.relation(rootx, [mb.feature("B")], 0, 1)
-    if r["raise"] and r["raise"][0].startswith(("FlamaException", "ParsingException")):
+    if r["raise"] and is_library_error(pm, r["raise"][0]):
         ctx.ok("C09-UNSUPPORTED", "fide-extended-attribute", where, "an <attribute> element is reported as a library error")
     else:
         compare(ctx, "C09-UNSUPPORTED", "fide-extended-attribute", where, r, mb.model(rootx, []),
@@ -298,14 +298,14 @@ def fama(pm: ProgramModel, ctx: Ctx, mb: ModelBuilder) -> None:
     compare(ctx, "C09-KEYFLOW", "fama-cardinalities", where, r, refc, "FaMa XML cardinalities [2..3], [0..1]", sem=False)
     # a constraint element before the feature element
     r = read(pm, "XMLReader", fama_doc(ref, ctc_first=True).encode("utf8"))
-    if r["raise"] and r["raise"][0].startswith(("FlamaException", "ParsingException")):
+    if r["raise"] and is_library_error(pm, r["raise"][0]):
         ctx.ok("C09-FAMA", "constraint-before-feature", where, "reported as a library error")
     else:
         compare(ctx, "C09-FAMA", "constraint-before-feature", where, r, ref,
                 "FaMa XML document listing the constraints before the feature tree", sem=False, names=True)
     # no feature at all
     r = read(pm, "XMLReader", b"<feature-model><description>empty</description></feature-model>")
-    ctx.check(r["raise"] is not None and r["raise"][0].startswith(("FlamaException", "ParsingException")),
+    ctx.check(r["raise"] is not None and is_library_error(pm, r["raise"][0]),
               "C09-UNSUPPORTED", "fama-no-feature", where, "a document without feature is a library error",
               bad=f"FaMa XML without any feature: {r['raise'][0] if r['raise'] else 'a model is returned'} "
                   f"(expected a FlamaException)")
@@ -415,14 +415,14 @@ def glencoe(pm: ProgramModel, ctx: Ctx, mb: ModelBuilder) -> None:
         if v["type"] == "GENOR":
             v["type"] = "MUTEX"
     r = read(pm, "GlencoeReader", json.dumps(doc2))
-    ctx.check(r["raise"] is not None and r["raise"][0].startswith(("FlamaException", "ParsingException")),
+    ctx.check(r["raise"] is not None and is_library_error(pm, r["raise"][0]),
               "C09-UNSUPPORTED", "glencoe-unknown-type", where, "an unknown group type is a library error",
               bad=f"Glencoe feature of unknown type: {r['raise'][0] if r['raise'] else 'a model is returned'} "
                   f"(expected a FlamaException)")
     doc3 = json.loads(json.dumps(doc))
     doc3["constraints"] = {"C1": {"type": "AtMostTerm", "operands": []}}
     r = read(pm, "GlencoeReader", json.dumps(doc3))
-    ctx.check(r["raise"] is not None and r["raise"][0].startswith(("FlamaException", "ParsingException")),
+    ctx.check(r["raise"] is not None and is_library_error(pm, r["raise"][0]),
               "C09-UNSUPPORTED", "glencoe-unknown-term", where, "an unknown term type is a library error",
               bad=f"Glencoe term of unknown type: {r['raise'][0] if r['raise'] else 'a model is returned'}")
 
@@ -489,7 +489,7 @@ def afm(pm: ProgramModel, ctx: Ctx, mb: ModelBuilder) -> None:
         # unsupported: arithmetic / relational constraints -> library error
         doc = "%Relationships\nR: [A] [B];\n%Attributes\nA.cost: Integer[0 to 10],5,0;\n%Constraints\nA.cost > 3;\n"
         r = read(pm, "AFMReader", doc)
-        ctx.check(r["raise"] is not None and r["raise"][0].startswith(("FlamaException", "ParsingException")),
+        ctx.check(r["raise"] is not None and is_library_error(pm, r["raise"][0]),
                   "C09-UNSUPPORTED", "afm-relational-constraint", where,
                   "a relational constraint (not representable by the reader) is a library error",
                   bad=f"AFM relational constraint: {r['raise'][0] if r['raise'] else 'a model is returned'}")
